@@ -42,10 +42,6 @@ func amf0Any(data []byte) string {
 	if err = a.UnmarshalBinary(data); err != nil {
 		return "err"
 	}
-	_ = a.Size()
-	if _, err := a.MarshalBinary(); err != nil {
-		return "ok-marshal-err"
-	}
 	return "ok"
 }
 
@@ -75,8 +71,6 @@ func amf0Typed(data []byte) string {
 	if err := a.UnmarshalBinary(data[1:]); err != nil {
 		return "err"
 	}
-	_ = a.Size()
-	a.MarshalBinary()
 	return "ok"
 }
 
@@ -167,7 +161,6 @@ func flvAudio(data []byte) string {
 	if err != nil {
 		return "err"
 	}
-	p.Encode(f)
 	_ = f.SoundFormat.String() + f.SoundRate.String() + f.SoundSize.String() + f.SoundType.String() + f.Trait.String()
 	return "ok"
 }
@@ -178,7 +171,6 @@ func flvVideo(data []byte) string {
 	if err != nil {
 		return "err"
 	}
-	p.Encode(f)
 	_ = f.FrameType.String() + f.CodecID.String() + f.Trait.String()
 	return "ok"
 }
@@ -243,11 +235,9 @@ func ascEntry(data []byte) string {
 	r1 := "err"
 	if err := asc.UnmarshalBinary(data); err == nil {
 		r1 = "ok"
-		asc.MarshalBinary()
 	}
 	a, _ := aac.NewADTS()
 	if err := a.SetASC(data); err == nil {
-		a.Encode([]byte{1, 2, 3})
 		return r1 + "/set-ok"
 	}
 	return r1 + "/set-err"
@@ -260,7 +250,6 @@ func avcRecord(data []byte) string {
 	if err := v.UnmarshalBinary(data); err != nil {
 		return "err"
 	}
-	v.MarshalBinary()
 	_ = v.AVCProfileIndication.String() + v.AVCLevelIndication.String()
 	return "ok"
 }
@@ -270,7 +259,6 @@ func avcNalu(data []byte) string {
 	if err := v.UnmarshalBinary(data); err != nil {
 		return "err"
 	}
-	v.MarshalBinary()
 	_ = v.NALUType.String()
 	h := avc.NewNALUHeader()
 	h.UnmarshalBinary(data)
@@ -285,7 +273,6 @@ func avcSample(data []byte) string {
 	if err := v.UnmarshalBinary(data[1:]); err != nil {
 		return "err"
 	}
-	v.MarshalBinary()
 	return "ok"
 }
 
@@ -372,11 +359,9 @@ func ocspResponse(data []byte) string {
 }
 
 func ocspRequest(data []byte) string {
-	req, err := ocsp.ParseRequest(data)
-	if err != nil {
+	if _, err := ocsp.ParseRequest(data); err != nil {
 		return "err"
 	}
-	req.Marshal()
 	return "ok"
 }
 
